@@ -1359,6 +1359,17 @@ def call(self, f, args, kwargs):
             return self.call(BoundMethod(f, m), args, kwargs)
     if type(f) in self.call_handlers:
         return self.call_handlers[type(f)](self, f, list(args), dict(kwargs))
+    if isinstance(f, Opaque) and f.kind == "callable":
+        ev = self.event(f.name, list(args), dict(kwargs))
+        h = getattr(self, "on_effect", None)
+        if h is not None:
+            h(ev)
+        for exc in f.spec.get("raises", ()):
+            flag = z3.Bool(self.path.fresh_name("raises_" + exc))
+            if self.path.branch(flag):
+                self.raise_exc(exc)
+        ret = f.spec.get("returns")
+        return self.make_symbolic(ret, f.name + "_ret") if ret is not None else None
     if isinstance(f, Opaque):
         h = self.builtins.get("opaque:" + f.name)
         if h is not None:
